@@ -485,11 +485,14 @@ def gen_op(rng, M):
     certs = [(idn, k, c) for idn, k in alive for c in M.ids[idn]['keys'][k]['certs']]
     r = rng.random()
     if r < 0.16 or not M.ids:
-        return ('touch', T([C(b'id'), C(rng.choice([b'a', b'b', b'c', b'd']))]))
+        tail = rng.choice([[b'a'], [b'b'], [b'c'], [b'd'], [b'a', b'sub'], [b'a', b'KEY', b'n'], [b'KEY']])
+        return ('touch', T([C(b'id')] + [C(x) for x in tail]))
     if r < 0.21:
         return ('new_identity', T([C(b'bare'), C(gen.rand_bytes(rng, 2))]))
     if r < 0.36:
-        return ('new_key', rng.choice(list(M.ids)), rng.choice(['ec', 'ec', 'ec', 'rsa']))
+        kid = rng.choice([None, None, None, b'k1', b'k2', 'k3'])
+        via = 'obj' if kid is None and rng.random() < 0.3 else 'kc'
+        return ('new_key', rng.choice(list(M.ids)), rng.choice(['ec', 'ec', 'ec', 'rsa']), kid, via)
     if r < 0.46 and alive:
         idn, k = rng.choice(alive)
         issuer = rng.choice(alive)
@@ -501,9 +504,9 @@ def gen_op(rng, M):
     if r < 0.64 and certs:
         return ('set_default_cert',) + rng.choice(certs)
     if r < 0.72 and certs:
-        return ('del_cert',) + rng.choice(certs)
+        return ('del_cert',) + rng.choice(certs) + (rng.choice(['kc', 'kc', 'obj']),)
     if r < 0.80 and alive:
-        return ('del_key',) + rng.choice(alive)
+        return ('del_key',) + rng.choice(alive) + (rng.choice(['kc', 'kc', 'obj']),)
     if r < 0.86:
         return ('del_identity', rng.choice(list(M.ids)))
     if r < 0.91:
@@ -535,9 +538,33 @@ def apply_op(S, M, op, rng, ctx):
         kc.new_identity(list(n))
         M.add_identity(n)
     elif kind == 'new_key':
-        idn, typ = op[1], op[2]
+        idn, typ, kid, via = op[1], op[2], op[3], op[4]
         kw = {'key_size': 1024} if typ == 'rsa' else {}
-        K = kc.new_key(list(idn), typ, **kw)
+        if kid is not None:
+            kw['key_id'] = rc.comp(8, kid) if isinstance(kid, bytes) else kid
+            kname = idn + (C(b'KEY'), C(kid if isinstance(kid, bytes) else kid.encode()))
+            if kname in M.ids[idn]['keys']:
+                # a key of that name exists already: the call may refuse (any error) but must leave the existing key as it is
+                try:
+                    kc.new_key(list(idn), typ, **kw)
+                except InjectedFault:
+                    raise
+                except Exception:   # noqa
+                    ctx.event('duplicate-key-id-refused')
+                    return
+                ctx.event('duplicate-key-id-replaced')
+                K = kc[list(idn)][list(kname)]
+                M.ids[idn]['keys'][kname]['bits'] = bytes(K.key_bits)
+                M.ids[idn]['keys'][kname]['certs'] = {}
+                for c in K:
+                    M.add_cert(idn, kname, T(c), K[c].data)
+                return
+        if via == 'obj' and typ == 'ec':
+            K = kc[list(idn)].new_key(typ)
+        else:
+            K = kc.new_key(list(idn), typ, **kw)
+        if kid is not None and T(K.name) != kname:
+            ctx.report('explicit-key-id-ignored', f'new_key(key_id={kid!r}) created {rc.name_to_uri(list(T(K.name)), canonical=True)}', None)
         M.add_key(idn, T(K.name), K.key_bits)
         for c in K:
             M.add_cert(idn, T(K.name), T(c), K[c].data)
@@ -565,12 +592,18 @@ def apply_op(S, M, op, rng, ctx):
         M.ids[idn]['keys'][k]['default_cert'] = c
         M.ids[idn]['keys'][k]['cert_default_explicit'] = True
     elif kind == 'del_cert':
-        _, idn, k, c = op
-        kc.del_cert(list(c))
+        _, idn, k, c, via = op
+        if via == 'obj':
+            kc[list(idn)][list(k)].del_cert(list(c))
+        else:
+            kc.del_cert(list(c))
         M.del_cert(c)
     elif kind == 'del_key':
-        _, idn, k = op
-        kc.del_key(list(k))
+        _, idn, k, via = op
+        if via == 'obj':
+            kc[list(idn)].del_key(list(k))
+        else:
+            kc.del_key(list(k))
         M.del_key(k)
     elif kind == 'del_identity':
         kc.del_identity(list(op[1]))
